@@ -31,7 +31,13 @@ type Peer struct {
 	cond   *sync.Cond
 	rdErr  error // set when the reader stops
 	taken  int   // frames[:taken] were consumed by Next
+	paused bool  // the reader does not consume bytes while set (a client that stopped reading)
 }
+
+// Pause makes the peer stop reading from the connection (after the frame in
+// progress); Resume undoes it.
+func (p *Peer) Pause()  { p.mu.Lock(); p.paused = true; p.mu.Unlock() }
+func (p *Peer) Resume() { p.mu.Lock(); p.paused = false; p.cond.Broadcast(); p.mu.Unlock() }
 
 // New starts a reader on end.
 func New(end *memconn.End) *Peer {
@@ -44,6 +50,11 @@ func New(end *memconn.End) *Peer {
 func (p *Peer) reader() {
 	seq := 0
 	for {
+		p.mu.Lock()
+		for p.paused {
+			p.cond.Wait()
+		}
+		p.mu.Unlock()
 		hdr := make([]byte, 4)
 		if _, err := io.ReadFull(p.End, hdr); err != nil {
 			p.stop(err)
